@@ -1,5 +1,6 @@
 import Driver.Util
 import ReplicatModel.Sym
+import ReplicatModel.SymBackend
 open Lean Replicat Replicat.Sym
 namespace Driver.HSym
 abbrev STerm := Replicat.Sym.Term
@@ -160,6 +161,23 @@ def handleSym (op : String) (j : Json) : Except String Json := do
         let idx ← getNatList oj "idx"
         let ups := s.log.filter (fun e => match e.1 with | .pair pre _ => pre != prefixKey | _ => true)
         pure (step s (.remove (idx.filterMap (fun i => ups[i]?.map (·.1)))))
+      | "snapshot_ev" =>
+        -- a snapshot against an arbitrary backend (ReplicatModel/SymBackend.lean).  `evs`: {"chunk": t, "ans": bool|null} |
+        -- {"vanish_at": [upload indices]} (resolved against the uploads emitted SO FAR, this snapshot's included)
+        let view := match oj.getObjVal? "view" with | .ok (Json.bool v) => v | _ => s.encrypted
+        let user ← getNat oj "user"
+        let p := ((s.users[user]?).getD default).props view
+        let (_, evs) ← (← getArr oj "evs").toList.foldlM (init := (({ s with encrypted := view } : St), ([] : List Ev))) fun acc ej => do
+          let ev : Ev ← match ej.getObjVal? "vanish_at" with
+            | .ok _ => do
+              let idx ← getNatList ej "vanish_at"
+              let ups := acc.1.log.filter (fun e => match e.1 with | .pair pre _ => pre != prefixKey | _ => true)
+              pure (Ev.vanish (idx.filterMap (fun i => ups[i]?.map (·.1))))
+            | _ => do
+              let ans := match ej.getObjVal? "ans" with | .ok (Json.bool b) => some b | _ => none
+              pure (Ev.chunk (← getTerm ej "chunk") ans)
+          pure (evStep p acc.1 ev, acc.2 ++ [ev])
+        pure (stepViewB s view (.snapshotEv user evs (← parseData (← oj.getObjVal? "data"))))
       | _ => do
         -- optional `view`: what the client that issued the command believed `encrypted` to be (absent = the repository's own flag)
         let op ← parseSymOp oj
